@@ -77,8 +77,12 @@ func NewConnSet(r *Run, w *World, first string, conns []*LConn) *ConnSet {
 func (cs *ConnSet) tgtKeys(ti int) []Candidate {
 	var ks []Candidate
 	if cs.Cross {
+		n := len(cs.Conns) + 4
+		if cs.KeySpan > n {
+			n = cs.KeySpan
+		}
 		for x := range cs.W.Targets {
-			for j := 0; j < len(cs.Conns)+4; j++ {
+			for j := 0; j < n; j++ {
 				ks = append(ks, TargetKey(cs.R.Seed, cs.W.Targets[x].Index, j))
 			}
 		}
